@@ -18,6 +18,11 @@ RULE = ("all link expressions K + k1*(Li-Lj) [+ k2*(Lm-Ln)] over three labels wi
         "targets must fail. state = program; transition = one placement/spelling step; non-trivial = distinct program text")
 ASSUMPTIONS = ["label offsets of the fixed three-label layout (0, 6, 10) are known by construction", "a non-leading '. =' without an earlier base and '.link' inside an included file are left open by the property and not generated"]
 K = 0o2000
+# how the six bytes between the labels a and b come about: a constant-size statement, a size known later, '.repeat' blocks with a
+# literal and with a later-defined count, an included file, and an included file (the very first statement unless the directive
+# precedes it) that also holds the label a itself, exported
+SIZEFORMS = [False, True, "rep", "repfwd", "repbyte", "inc", "inclabel"]
+TREE = {"six.mac": "\t.blkb 6\n", "inca.mac": "a:: .blkb 6\n"}
 OFF = {"a": 0, "b": 6, "c": 10}
 PAIRS = [(x, y) for x in "abc" for y in "abc" if x != y]
 
@@ -94,9 +99,13 @@ def make_program(directive, pos, deferred, symform, expr, colon=":"):
         post_defs.append("lk = " + expr)
         e = "lk"
     d = "%s %s" % (directive, e) if directive == ".link" else ". = %s" % e
-    stm = ["a%s .blkb %s" % (colon, "n6" if deferred else "6"), "b%s .word 1, 2" % colon, "c%s nop" % colon, ".word a, c"]
-    if deferred:
+    first = {False: "a%s .blkb 6", True: "a%s .blkb n6", "rep": "a%s .repeat 3 { .word 0 }", "repfwd": "a%s .repeat n3 { .word 0 }",
+             "repbyte": "a%s .repeat n6 { .byte 0 }", "inc": "a%s .include \"six.mac\"", "inclabel": "%s.include \"inca.mac\""}[deferred]
+    stm = [first % (colon if deferred != "inclabel" else ""), "b%s .word 1, 2" % colon, "c%s nop" % colon, ".word a, c"]
+    if deferred is True or deferred == "repbyte":
         post_defs.append("n6 = 6")
+    if deferred == "repfwd":
+        post_defs.append("n3 = 3")
     out = list(pre_defs)
     for al in ("qa", "qb", "qc"):
         if al in expr:
@@ -124,7 +133,7 @@ def cases(tier):
 
 
 def judge_ok(r, text, files, want_base, want_image, key, fam):
-    out = driver.assemble(files)
+    out = driver.assemble(files, tree=TREE)
     r.states += 1
     r.trans += 1
     good = out.status == "ok" and out.base == want_base and out.code == want_image
@@ -141,7 +150,7 @@ def judge_ok(r, text, files, want_base, want_image, key, fam):
 
 
 def judge_fail(r, files, key, fam, why):
-    out = driver.assemble(files)
+    out = driver.assemble(files, tree=TREE)
     r.states += 1
     r.trans += 1
     r.ran(out.cls(), key=key)
@@ -164,17 +173,18 @@ def check(case, r, tier):
             _b, image = layout(base, False)
             for directive in (".link", ". ="):
                 for pos in ((0, 1, 2, 3) if directive == ".link" else (0,)):
-                    for deferred in (False, True):
+                    for deferred in SIZEFORMS:
                         for symform in ("direct", "before", "after"):
                             text = make_program(directive, pos, deferred, symform, expr)
-                            fam = "%s-pos%d-%s%s" % ("link" if directive == ".link" else "dot", pos, symform, "-deferredsize" if deferred else "")
+                            fam = "%s-pos%d-%s%s" % ("link" if directive == ".link" else "dot", pos, symform,
+                                                     "" if deferred is False else "-deferredsize" if deferred is True else "-" + deferred)
                             judge_ok(r, text, [("p.mac", text)], base, image, text, fam)
         return
     if k == "bad":
         for expr in BAD:
             for directive in (".link", ". ="):
                 for pos in ((0, 1, 2, 3) if directive == ".link" else (0,)):
-                    for deferred in (False, True):
+                    for deferred in SIZEFORMS:
                         for symform in ("direct", "before", "after"):
                             text = make_program(directive, pos, deferred, symform, expr)
                             judge_fail(r, [("p.mac", text)], text, "self-dependent", "the base depends on itself (%s) and must be refused" % expr)
